@@ -22,6 +22,7 @@ type c09Case struct {
 	Exts    []string     `json:"exts,omitempty"`
 	Missing bool         `json:"missing,omitempty"` // the target directory given with WithTargetDir does not exist yet
 	PreOps  []string     `json:"preOps,omitempty"`
+	PreRoot bool         `json:"preRoot,omitempty"` // the first root already exists in the target (the real run would fail with "path already exists")
 }
 
 func init() { registerReplay("c09", c09Check) }
@@ -53,6 +54,9 @@ func c09Check(c c09Case) string {
 	}
 	if c.Route == "mkdir-root" {
 		dry.PreOps = c.PreOps
+	}
+	if c.PreRoot && !c.Missing && model.ValidElem(f[0].Name) {
+		dry.FS.Pre = []ops.FSEntry{{Path: f[0].Name, Kind: "d"}}
 	}
 	dres := pool("chroot").Run(&dry)
 	head := fmt.Sprintf("forest %s route=%s massive=%v exts=%q\n", f, c.Route, c.Massive, c.Exts)
@@ -91,6 +95,9 @@ func c09Check(c c09Case) string {
 			osRefusal = true
 		}
 	})
+	if c.PreRoot && !c.Missing && model.ValidElem(f[0].Name) && f.AllNames(model.ValidElem) && !dres.Err.Nil {
+		return fmt.Sprintf("%sall names are valid, yet the dry run rejected the tree (%s) because a root already exists in the target: a dry run rejects a tree only because of its names", head, dres.Err.Text)
+	}
 	if !osRefusal && !hasDupRoots(f) && dres.Err.Nil != rres.Err.Nil {
 		return fmt.Sprintf("%sdry run returned %q but the real run returned %q", head, errOrNil(dres), errOrNil(rres))
 	}
@@ -241,6 +248,7 @@ func TestC09Random(t *testing.T) {
 		}
 		c := c09Case{Forest: f, Route: route, Massive: rapid.IntRange(0, 2).Draw(rt, "massive") == 0, Exts: genExts(f.Names()).Draw(rt, "exts")}
 		c.Missing = rapid.IntRange(0, 3).Draw(rt, "missingTarget") == 0
+		c.PreRoot = rapid.IntRange(0, 3).Draw(rt, "preRoot") == 0
 		if route == "mkdir-root" && rapid.IntRange(0, 2).Draw(rt, "withPreOps") == 0 {
 			c.PreOps = rapid.SliceOfN(rapid.SampledFrom(preOpPool), 1, 2).Draw(rt, "preOps")
 		}
@@ -276,7 +284,7 @@ func TestC09Exhaustive(t *testing.T) {
 			}
 			for _, r := range routes {
 				rot++
-				c := c09Case{Forest: f, Route: r, Exts: exts, Massive: rot%3 == 0, Missing: rot%4 == 1}
+				c := c09Case{Forest: f, Route: r, Exts: exts, Massive: rot%3 == 0, Missing: rot%4 == 1, PreRoot: rot%5 == 2}
 				c09Record(col, c)
 				if msg := c09Check(c); msg != "" {
 					violation(t, "C09", "c09", c, msg)
